@@ -66,7 +66,7 @@ void run_printf(Ctx &c, std::string in, unsigned variant) {
 	// every slot is a valid pointer to a NUL-terminated string that is also a terminated wide string
 	static const char strbuf[16] __attribute__((aligned(8))) = {'a', 'b', 'c', 0, 0, 0, 0, 0, 0, 0, 0, 0, 0, 0, 0, 0};
 	uint64_t *area = (uint64_t *)malloc(nslots * 8); c.arena.push_back({area, nullptr});
-	for(size_t i = 0; i < nslots; i++) area[i] = variant == 0 ? (uint64_t)(uintptr_t)strbuf : (uint64_t)(uintptr_t)(strbuf + 3);   // "abc" / ""
+	for(size_t i = 0; i < nslots; i++) area[i] = variant == 0 ? (uint64_t)(uintptr_t)strbuf : (uint64_t)(uintptr_t)(strbuf + 4);   // "abc" / "" (both also aligned, terminated wide strings: %ls reads them as wchar_t)
 	frg::va_struct vs;
 	vs.args[0].gp_offset = 48; vs.args[0].fp_offset = 304; vs.args[0].overflow_arg_area = area; vs.args[0].reg_save_area = nullptr;
 	size_t nargs = nslots + 10;
